@@ -87,6 +87,10 @@ def run(check, prog):
     reusable(check, prog)
     saved(check, prog)
     payload(check, prog)
+    # bounds are inclusive on both sides of the hand-off: the optimiser's limits
+    # table and the prior's own support predicate (rule shared with C14)
+    from . import c14
+    c14.r1_support(check, prog)
     entry(check, prog)
     assembly(check, prog)
     reported(check, prog)
